@@ -14,7 +14,8 @@ tree through the public Field API node by node and checks, on the real code alon
 * at every `+` / `*` step the swapped evaluation gives the same field (array, validity, labels,
   mapping, mesh), or fails likewise;
 * stacking the components of the result / of the leaves reproduces them;
-* fields on different meshes or with incompatible component counts are refused.
+* fields on different meshes or with incompatible component counts are refused;
+* two-output ufunc calls (`np.divmod(f, g)`): both results cell by cell, validity, mesh, operands untouched, refusals.
 
 The same tree goes to the Lean model (`evalF`) and everything observable is compared exactly.
 """
@@ -37,7 +38,8 @@ RULE = ("random expression trees (depth<=4 quick / <=6 thorough) over 1-4 leaf f
         "operators, .dot/.cross/.angle/<<, complex parts, unary and binary ufuncs; exact regime (small integers, divisors +-2^k) so "
         "Fraction(impl) == model rational; angle/phase/tolerance-division through route (iii) with |err| <= 2^-40 scale; plus a malformed "
         "stream (wrong lengths, odd array shapes, lists into ufuncs, 2**f, scalar.dot(vector)), a mismatch stream (different meshes, "
-        "component counts) and a metadata stream (labelled scalars, differing labels). non-trivial = the tree has an operation, "
+        "component counts), a metadata stream (labelled scalars, differing labels) and a two-output-ufunc stream (np.divmod / np.modf "
+        "on fields, numbers, arrays, lists, complex data, other meshes / counts: the tuple branch of __array_ufunc__). non-trivial = the tree has an operation, "
         "evaluates to a field with >1 cell or >1 component and non-constant data")
 TRUSTED = ["harness/c03.py + driver JSON glue (lean/DFV/Drv/C03.lean)",
            "NumPy elementwise functions, broadcasting, einsum, cross, stack, full: modelled by contract (bshape/bproj index maps)",
@@ -53,11 +55,18 @@ ASSUMPTIONS = ["exact-regime inputs: every binary64 operation on the code path i
                "(Field(mesh, value=array of shape mesh.n) reads it as per-cell scalars); such cases are still compared model-vs-code, "
                "only the per-cell oracle is skipped (tag mesh-shaped-operand-under-shl/angle)"]
 UNPROVED = ["eval_pure (operand immutability) is a runtime fact: the functional model has it by construction; the code is checked by "
-            "snapshots around every evaluation step", "comm_meta at full strength is false of the code (known finding D10, theorem "
-            "comm_meta_fails); comm_meta_partial states the provable part",
-            "a+b vs b+a for two one-component fields with different explicit labels (finding D51) and acceptance asymmetry between "
-            "Field∘ndarray (_apply_operator) and ndarray∘Field (__array_ufunc__) (finding D52) are violations of the a∘b = b∘a clause "
-            "observed on the code; the model follows the code"]
+            "snapshots around every evaluation step (every operator, ufunc and two-output call, both operand orders)",
+            "comm_meta at full strength is false of the code (open findings D10 / D51, theorems comm_meta_fails / "
+            "comm_meta_fails_scalar); comm_meta_partial, comm_meta_trees_partial (scalar-with-vector, equal labels) and comm_meta_raw "
+            "(number / fitting vector / fitting array on either side) state the provable part",
+            "acceptance asymmetry between Field∘ndarray (_apply_operator) and ndarray∘Field (__array_ufunc__) for arrays that "
+            "do not have the field's own shape (open finding D52, theorem comm_accept_fails): a violation of the a∘b = b∘a clause "
+            "observed on the code; the model follows the code",
+            "acceptance (typed_total, the *_meta theorems) is proved for the typing judgment HasTy: fields on ONE mesh (Mesh equal, "
+            "not merely allclose), numbers, vectors of length nvdim and arrays of shape n+[nvdim]; not covered by an acceptance "
+            "theorem (only by the conditional eval_cellwise and the correspondence run): ** with a field / array exponent, "
+            "np.power(number, f), << and angle with a non-field operand, other broadcastable array shapes (n+[1], [1], 0-d), "
+            "a scalar field first in a ufunc call with a vector field second"]
 BUDGET = {"quick": 85, "thorough": 900}
 
 LABELS = ["a", "b", "c", "p", "q", "mx", "my", "mz", "ft_x", "ft_y", "s1", "t2", "x", "y", "z"]
@@ -683,13 +692,61 @@ def stream_stack(rng, tier, count):
         yield dict(kind="stack", meshes=[spec], fields=[f1])
 
 
+def stream_pair(rng, tier, count):
+    # ---- two-output ufuncs: the tuple branch of __array_ufunc__ (np.divmod(l, r), np.modf(f))
+    for _ in range(count):
+        spec, dims, _ = gen_env(rng, tier, nfields=1)
+        n = spec["n"]
+        ndim = len(n)
+        ncells = int(np.prod(n))
+        how = rng.choice(["ff", "ff", "ff", "ff", "ff", "fs", "fs", "sf", "sf-labelled", "fnum", "numf", "farr", "arrf", "flist",
+                          "modf", "cplx", "mesh", "nvdim", "same-leaf"])
+        nv = rng.choice([1, 2, 3, 3, 4])
+        nv1 = 1 if how in ("sf", "sf-labelled") else nv
+        nv2 = 1 if how == "fs" else nv
+        if how in ("sf", "sf-labelled"):
+            nv2 = rng.choice([2, 3, 4])
+        if how == "nvdim":
+            nv1, nv2 = rng.sample([2, 3, 4], 2)
+        meshes = [spec]
+        if how == "mesh":
+            ax = rng.randrange(ndim)
+            cell = (Fraction(spec["p2"][ax]) - Fraction(spec["p1"][ax])) / n[ax]
+            spec2 = dict(spec)
+            spec2["p1"] = [float(Fraction(v) + (cell if a == ax else 0)) for a, v in enumerate(spec["p1"])]
+            spec2["p2"] = [float(Fraction(v) + (cell if a == ax else 0)) for a, v in enumerate(spec["p2"])]
+            meshes.append(spec2)
+        # dividend: small integers of a real (or, for `cplx`, complex) dtype; divisor: non-zero +-2^k, float dtype
+        f1 = gen_field_spec(rng, 0, ncells, ndim, dims, nv=nv1, cls="int",
+                            dtype="complex128" if how == "cplx" else rng.choice(["float64", "float64", "float32", "int64", "int32"]),
+                            labels="custom" if how == "sf-labelled" else ("default" if how == "sf" else None))
+        f2 = gen_field_spec(rng, len(meshes) - 1, ncells, ndim, dims, nv=nv2, cls="pow2", dtype=rng.choice(["float64", "float64", "float32"]))
+        l, r = dict(t="leaf", k=0), dict(t="leaf", k=1)
+        if how == "fnum":
+            r = gen_num(rng, pow2=True, allow_cplx=False).node
+        elif how == "numf":
+            l, r = gen_num(rng, allow_cplx=False).node, dict(t="leaf", k=1)
+        elif how in ("farr", "arrf", "flist"):
+            shape = rng.choice([[nv], list(n) + [nv]])
+            a = gen_arr(rng, shape, pow2=True, allow_cplx=False, py="list" if how == "flist" else "ndarray").node
+            if how == "arrf":
+                a = gen_arr(rng, shape, allow_cplx=False, py="ndarray").node
+                l, r = a, dict(t="leaf", k=1)
+            else:
+                r = a
+        elif how == "same-leaf":
+            l = r = dict(t="leaf", k=1)
+        yield dict(kind="pair", fn="modf" if how == "modf" else "divmod", how=how, meshes=meshes, fields=[f1, f2], l=l, r=r)
+
+
 def cases(rng, tier):
     """all streams interleaved (deterministically, by the run's PRNG), so a run cut short by the time budget still
     exercises every stream"""
     quick = tier == "quick"
     plan = [(stream_main, 4600 if quick else 24000), (stream_route3, 450 if quick else 2000),
             (stream_malformed, 1000 if quick else 5000), (stream_mismatch, 550 if quick else 2500),
-            (stream_meta, 550 if quick else 2500), (stream_stack, 250 if quick else 1200)]
+            (stream_meta, 550 if quick else 2500), (stream_stack, 250 if quick else 1200),
+            (stream_pair, 450 if quick else 2000)]
     gens = [fn(rng, tier, cnt) for fn, cnt in plan]
     schedule = [k for k, (_, cnt) in enumerate(plan) for _ in range(cnt)]
     rng.shuffle(schedule)
@@ -1074,6 +1131,63 @@ def check_stack(f, fail, what):
     return st
 
 
+def run_pair(case, obs, fields, fail):
+    """two-output ufunc call on the real code: np.divmod(l, r) / np.modf(l), with the property's checks (cell by cell,
+    one mesh, validity, operands untouched, refusals)"""
+    def opd(node):
+        return fields[node["k"]] if node["t"] == "leaf" else build_opd(node)
+    obs["tags"].append("pair:" + case["how"])
+    lv = opd(case["l"])
+    rv = lv if case["r"] is case["l"] or case["r"] == case["l"] else opd(case["r"])
+    before = [snap(lv), snap(rv)]
+    err = None
+    with np.errstate(all="ignore"):
+        try:
+            res = np.modf(lv) if case["fn"] == "modf" else np.divmod(lv, rv)
+        except Exception as e:
+            res, err = None, e
+    for v, b in zip([lv, rv], before):
+        if snap(v) != b:
+            fail(f"PURE: evaluating {case['fn']} modified its operand: {snap_diff(b, snap(v))} changed")
+    obs["nontrivial"] = False
+    if err is not None:
+        obs["res"] = "err"
+        obs["tags"].append("refused:" + type(err).__name__)
+        return
+    if not (isinstance(res, tuple) and len(res) == 2 and all(isinstance(x, df.Field) for x in res)):
+        obs["res"] = "raw"
+        fail(f"RESULT: {case['fn']} evaluates to {type(res).__name__}, not a pair of Fields")
+        return
+    obs["res"] = [field_obs(x) for x in res]
+    obs["tags"].append(f"ok-nvdim:{res[0].nvdim}")
+    lf, rf = isinstance(lv, df.Field), isinstance(rv, df.Field)
+    if lf and rf:
+        if really_different(lv.mesh, rv.mesh):
+            fail(f"MESH: {case['fn']} accepted two fields that live on different meshes")
+        if lv.nvdim != rv.nvdim and lv.nvdim > 1 and rv.nvdim > 1:
+            fail(f"NVDIM: {case['fn']} accepted fields with {lv.nvdim} and {rv.nvdim} components")
+    src = [v for v in (lv, rv) if isinstance(v, df.Field)]
+    valid = reduce(np.logical_and, [np.asarray(v.valid) for v in src])
+    n = tuple(int(k) for k in src[0].mesh.n)
+    fns = (np.floor_divide, np.remainder)
+    with np.errstate(all="ignore"):
+        for j, g in enumerate(res):
+            if not (g.mesh == src[0].mesh and mesh_state(g.mesh)[:6] == mesh_state(src[0].mesh)[:6]):
+                fail(f"MESHKEPT: result {j} of {case['fn']} does not live on the mesh of its operands")
+            if not np.array_equal(np.asarray(g.valid), valid):
+                fail(f"VALID: result {j} of {case['fn']} is not valid exactly where all field operands are")
+            for idx in np.ndindex(*n):
+                x = np.array(lv.array[idx]) if lf else np.asarray(lv)
+                y = np.array(rv.array[idx]) if rf else np.asarray(rv)
+                exp = np.atleast_1d(fns[j](x, y))
+                got = g.array[idx]
+                if exp.shape != got.shape or not np.array_equal(got, exp, equal_nan=True):
+                    fail(f"CELL: cell {idx} of result {j} of {case['fn']} is {got.tolist()}, the same expression evaluated at "
+                         f"that cell gives {exp.tolist()}")
+                    break
+    obs["nontrivial"] = bool(res[0].array.size > 1 and not np.all(res[0].array == res[0].array.reshape(-1)[0]))
+
+
 def field_obs(f):
     arr = np.asarray(f.array).reshape(-1)
     if np.iscomplexobj(arr):
@@ -1104,6 +1218,8 @@ def run_impl(case):
         obs["res"] = field_obs(st) if st is not None else "err"
         obs["nontrivial"] = f.nvdim > 1
         obs["tags"].append(f"stack-nvdim:{f.nvdim}")
+    elif case["kind"] == "pair":
+        run_pair(case, obs, fields, fail)
     else:
         ev = Evaluator(fields, fail, obs["tags"])
         with np.errstate(all="ignore"):
@@ -1196,6 +1312,10 @@ def model_requests(case, obs):
     fields = obs["leaves"]
     if case["kind"] == "stack":
         return [dict(op="stack", field=fields[0])]
+    if case["kind"] == "pair":
+        if case["fn"] == "modf":
+            return [dict(op="pair1", field=fields[case["l"]["k"]])]
+        return [dict(op="pair", fields=fields, l=expr_json(case["l"]), r=expr_json(case["r"]))]
     e = expr_json(case["expr"])
     if case["kind"] == "angle":
         return [dict(op="eval", fields=fields, expr=e, sq="id"), dict(op="eval", fields=fields, expr=e, sq="one")]
@@ -1271,6 +1391,18 @@ def compare(case, obs, rs):
     if obs["res"] == "raw":
         if not (isinstance(r.get("ok"), dict) and r["ok"].get("raw")):
             dis.append(f"{name}: impl gives a non-field, model {list(r)}")
+        return dis
+    if case["kind"] == "pair":
+        if "ok" not in r:
+            dis.append(f"pair: impl accepts, model {r}")
+            return dis
+        for j, key in enumerate(("a", "b")):
+            got, mj = obs["res"][j], r["ok"][key]
+            if cmp_meta(f"pair[{j}]", got, mj, dis):
+                cmp_data_exact(f"pair[{j}]", got, mj, dis)
+        if r["ok"].get("spec") is False:
+            dis.append("pair: MODEL-INTERNAL the code-shaped model result is not the per-cell specification "
+                       "(theorem pair_cellwise contradicted?)")
         return dis
     if "ok" not in r or r["ok"].get("raw"):
         dis.append(f"{name}: impl accepts (nvdim {obs['res']['nvdim']}), model {r if 'err' in r else 'raw'}")
